@@ -67,6 +67,15 @@ fn h32(v: Vec<u8>) -> [u8; 32] {
     a
 }
 
+/// Concatenation of a token sequence.
+pub fn eval_seq(toks: &Value, ctx: &Ctx) -> Vec<u8> {
+    let mut v = vec![];
+    for t in toks.as_array().expect("token sequence") {
+        v.extend(eval(t, ctx));
+    }
+    v
+}
+
 pub fn eval(t: &Value, ctx: &Ctx) -> Vec<u8> {
     let a = t.as_array().unwrap_or_else(|| panic!("token must be an array: {}", t));
     let tag = a[0].as_str().unwrap_or_else(|| panic!("token tag: {}", t));
@@ -79,7 +88,15 @@ pub fn eval(t: &Value, ctx: &Ctx) -> Vec<u8> {
         "u32be" => (num(&a[1]) as u32).to_be_bytes().to_vec(),
         "vi" => varint(num(&a[1]), None),
         "viw" => varint(num(&a[1]), Some(num(&a[2]))),
-        "f" => ctx.fields.get(a[1].as_str().unwrap()).unwrap_or_else(|| panic!("unbound field {}", a[1])).clone(),
+        "f" => {
+            let name = a[1].as_str().unwrap();
+            // attribute (4th element) selects a deliberately invalid variant of the field
+            let key = match a.get(3).and_then(|x| x.as_str()) {
+                Some(attr @ ("bx" | "bs" | "bp" | "bq")) => format!("{}#{}", name, attr),
+                _ => name.to_string(),
+            };
+            ctx.fields.get(&key).unwrap_or_else(|| panic!("unbound field {}", key)).clone()
+        }
         // length-prefixed field: varint(len) || bytes
         "vf" => {
             let b = ctx.fields.get(a[1].as_str().unwrap()).unwrap_or_else(|| panic!("unbound field {}", a[1])).clone();
